@@ -70,6 +70,7 @@ counters!(
     loads_ok_after_transparent_events,
     loads_err_after_fault,
     loads_refused_lenient_format,
+    loads_refused_changed_file,
     load_ok_despite_hard_fault,
     load_ok_despite_eintr,
     load_ok_without_open,
@@ -1158,10 +1159,11 @@ impl Sim {
                                     // A rendering with liberties of debatable status: refusing it
                                     // is not a wrong answer.
                                     w.ctr.inc(C::loads_refused_lenient_format);
-                                } else if fired.replace.is_some() && a.opens >= 2 {
-                                    // The loader opened the file twice and the file changed in
-                                    // between: refusing to answer is not a wrong answer.
-                                    w.ctr.inc(C::loads_err_after_fault);
+                                } else if fired.replace.is_some() || sc.stat_lies != 0 {
+                                    // The file changed while it was being loaded, or `stat`
+                                    // disagrees with the content: a loader that notices (reads
+                                    // twice, compares sizes) and refuses is not answering wrongly.
+                                    w.ctr.inc(C::loads_refused_changed_file);
                                 } else {
                                     violation = Some(mk(
                                         "O2",
@@ -1182,7 +1184,11 @@ impl Sim {
                                     drop(w);
                                     std::panic::panic_any(HarnessError(msg));
                                 }
-                                if !fired.any_error_like() && candidates.iter().all(|&c| ctx.images[c].strict) {
+                                if !fired.any_error_like()
+                                    && candidates.iter().all(|&c| ctx.images[c].strict)
+                                    && fired.replace.is_none()
+                                    && sc.stat_lies == 0
+                                {
                                     violation = Some(mk(
                                         "O2",
                                         format!(
@@ -1197,6 +1203,7 @@ impl Sim {
                             && is_tail
                             && outcome != 0
                             && candidates.iter().all(|&c| ctx.images[c].strict)
+                            && sc.stat_lies == 0
                         {
                             violation = Some(mk(
                                 "O3",
